@@ -3,7 +3,7 @@ from __future__ import annotations
 
 import numpy as np
 
-from mc import enum, est, refs
+from mc import enum, est, refs, seqdiff
 from mc.common import HarnessError, Stats, pmap, safe, shards
 
 PROPERTY = 'C03'
@@ -11,7 +11,7 @@ LEVEL = 'exploration'
 RULE = ('(A) every ordered pair (Y, X) of restricted-growth strings of length n scored by mutual_info_estimator_numba(Y, X, 1, True) and '
         'compared with a float64 reference H(Y*|X) - H(Y|X) (Y* = Y read at the position advanced cyclically by the stratum size; '
         'element-wise identical vectors -> H(Y)); corollaries (constant / all-distinct feature -> 0, self -> entropy) on the complete sets; '
-        '(C) planted-signal ranking corollary over a finite seed window; (D) heuristic name -> correction flag. '
+        '(C) planted-signal ranking corollary over a finite seed window; (D) heuristic name -> correction flag, incl. every ordered pair of numba_mi calls over (vectors, heuristic name, ratio) in one process state vs a pristine state. '
         'distinct_nontrivial = ordered pairs with Y != X element-wise, both non-constant')
 ASSUMPTIONS = ['tolerance 1e-5 + 1e-5*|ref|', 'ranking corollary: complete enumeration of the seed window VERIF_SEED*W..+W-1 only']
 
@@ -121,7 +121,25 @@ def _flags(_):
     return st
 
 
+SEQ_VECS = [((0, 1, 2, 0, 1, 2, 3, 3), (0, 0, 1, 1, 0, 1, 0, 1)), ((0, 1, 2, 3, 4, 5, 6, 7), (0, 0, 0, 0, 1, 1, 1, 1))]
+SEQ_MENU = [(vi, h, r) for vi in range(2) for h in ('MI-numba-randomized', 'MI-numba-3mr', 'MI-numba') for r in (1.0, 0.5)]
+
+
+def seq_call(x):
+    from outrank.algorithms import importance_estimator as ie
+    vi, h, r = x
+    y, xx = SEQ_VECS[vi]
+    return float(ie.numba_mi(np.array(y, dtype=np.int8), np.array(xx, dtype=np.int8), h, r))
+
+
+def _seqdiff(_):
+    st = Stats()
+    seqdiff.run(seq_call, SEQ_MENU, 2, st, lambda seq, pos: {'kind': 'seqdiff', 'seq': list(seq)}, {'kind': 'history_dependent'})
+    return st
+
+
 def run(ctx):
+    ctx.stats.merge(_seqdiff(None))
     nmax = 8 if ctx.thorough else 6
     jobs = []
     for n in range(1, nmax + 1):
@@ -145,6 +163,8 @@ def run(ctx):
 
 
 def eval_case(case):
+    if case.get('kind') == 'seqdiff':
+        return seqdiff.replay(seq_call, SEQ_MENU, case['seq'])
     f = est.estimator()
     st = Stats()
     if 'seed' in case:
